@@ -49,8 +49,6 @@ use crate::app::{
 use crate::link::header::{FrameInfo, FrameType};
 use crate::link::reader::LinkModes;
 use crate::link::EndpointAddress;
-use crate::master::AssociationConfig;
-use crate::master::{CommandError, CommandResponseError, TaskError, WriteError};
 use crate::master::messages::{AssociationMsg, AssociationMsgType, MasterMsg, Message};
 use crate::master::promise::Promise;
 use crate::master::task::MasterTask;
@@ -60,11 +58,13 @@ use crate::master::tasks::empty_response::EmptyResponseTask;
 use crate::master::tasks::read::SingleReadTask;
 use crate::master::tasks::restart::{RestartTask, RestartType};
 use crate::master::tasks::Task;
+use crate::master::AssociationConfig;
 use crate::master::{
     AssociationHandler, AssociationInformation, Classes, CommandBuilder, CommandHeaders,
     CommandMode, CommandSupport, DeadBandHeader, EventClasses, HeaderInfo, Headers,
     MasterChannelConfig, ReadHandler, ReadHeader, ReadRequest, ReadType, TaskType,
 };
+use crate::master::{CommandError, CommandResponseError, TaskError, WriteError};
 use crate::transport::FragmentAddr;
 use crate::util::phys::{PhysAddr, PhysLayer};
 use crate::util::session::{Enabled, RunError, StopReason};
@@ -114,7 +114,11 @@ fn header_text(h: ResponseHeader) -> String {
     format!(
         "{:02x}{:02x}{:02x}{:02x}",
         h.control.to_u8(),
-        if h.function.is_unsolicited() { 0x82u8 } else { 0x81u8 },
+        if h.function.is_unsolicited() {
+            0x82u8
+        } else {
+            0x81u8
+        },
         h.iin.iin1.value,
         h.iin.iin2.value
     )
